@@ -118,7 +118,7 @@ def obligations(tier):
         elif dec in flat or dec.startswith("designator"):
             ns = [0, 1, 8, 17, 20, 32] if q else list(range(0, 41)) + [64, 96]
         elif dec == "readelementstatus":
-            ns = [0, 4, 8, 12, 16, 18, 20] if q else list(range(0, 27))
+            ns = [0, 4, 8, 12, 16, 18, 20, 24, 25] if q else list(range(0, 29))
         else:
             ns = [0, 1, 4, 8, 12, 16, 20, 24] if q else list(range(0, 33))
         plan.append((dec, None, ns))
